@@ -29,6 +29,9 @@ func main() {
 	list := flag.Bool("list", false, "list every obligation")
 	noEvidence := flag.Bool("no-evidence", false, "do not write evidence/report files (used by the self-test)")
 	flag.Parse()
+	for _, f := range lateInits {
+		f()
+	}
 	if v := os.Getenv("VERIF_TIER"); v != "" && *tier == "quick" {
 		if v == "thorough" {
 			*tier = v
